@@ -152,21 +152,32 @@ class Run(object):
 
     # ---- the fold --------------------------------------------------------------------
     def truth(self, owner_id):
-        """[(mgr, is_async, is_exiting)] for managers owned by activation *owner_id*."""
-        ent = []
-        exiting = None
+        """[(mgr, is_async, is_exiting)] for managers owned by activation *owner_id*.  One entry per
+        *activation*: a re-entrant manager entered twice is listed twice, and an exit belongs to its most
+        recent activation."""
+        ent = []   # [manager, state] per activation attempt, outermost first
         for ev, m in self.log:
             if m.owner != owner_id:
                 continue
-            if ev == "ee":
-                ent.append(m)
+            if ev == "es":
+                ent.append([m, "entering"])
+            elif ev == "ee":
+                for a in reversed(ent):
+                    if a[0] is m and a[1] == "entering":
+                        a[1] = "entered"
+                        break
             elif ev == "xs":
-                exiting = m
+                for a in reversed(ent):
+                    if a[0] is m and a[1] == "entered":
+                        a[1] = "exiting"
+                        break
             elif ev == "xe":
-                if m in ent:
-                    ent.remove(m)
-                exiting = None
-        return [(m, m.is_async, m is exiting) for m in ent]
+                # ends the most recent activation attempt of m: a failed enter, or an exit
+                for idx in range(len(ent) - 1, -1, -1):
+                    if ent[idx][0] is m:
+                        del ent[idx]
+                        break
+        return [(m, m.is_async, st == "exiting") for m, st in ent if st != "entering"]
 
     def in_progress(self, owner_id):
         """managers of this activation that are currently entering or exiting (allowed extras
@@ -376,11 +387,11 @@ class Run(object):
                 finally:
                     run.log.append(("xe", s))
 
-        def mkS(k, shape=None, dropret=False):
+        def mkS(k, shape=None, dropret=False, reentrant=False):
             cls = SF if run.rng.random() < run.p_falsy else S
             if run.alias_exit and run.rng.random() < 0.15:
                 cls = SX
-            if run.c_level and shape is None and run.rng.random() < 0.12:
+            if run.c_level and shape is None and not reentrant and run.rng.random() < 0.12:
                 cls = SC
                 run.n_c_level += 1
             m = cls.__new__(cls)
@@ -403,6 +414,19 @@ class Run(object):
             m.tag = (sys._getframe(1).f_lineno, k)
             return m
 
+        def mkRS(k):
+            # a manager that is going to be entered more than once (never the single-use C-level kind)
+            m = mkS(k, reentrant=True)
+            m.owner = id(sys._getframe(1))
+            m.tag = (sys._getframe(1).f_lineno, k)
+            return m
+
+        def mkRA(k):
+            m = mkA(k)
+            m.owner = id(sys._getframe(1))
+            m.tag = (sys._getframe(1).f_lineno, k)
+            return m
+
         ns_obj = _NS()
         ns_obj.sub = _NS()
         ns_obj.sub.sub = _NS()
@@ -413,7 +437,7 @@ class Run(object):
         ns_obj.meth = FN
 
         return dict(
-            S=mkS, A=mkA, P=self.P, CP=__import__("functools").partial(self.P), D=self.D, R=self.R, M=self.M, T=self.T, TL=self.TL, RECUR=self.RECUR, V=self.V, CHK=self.CHK,
+            S=mkS, A=mkA, RS=mkRS, RA=mkRA, P=self.P, CP=__import__("functools").partial(self.P), D=self.D, R=self.R, M=self.M, T=self.T, TL=self.TL, RECUR=self.RECUR, V=self.V, CHK=self.CHK,
             sus=self.sus, pre=self.pre, post=self.post,
             E1=E1, E2=E2, LoopLimit=LoopLimit,
             NS=ns_obj, ARR=[None] * 8, DCT={}, FN=FN, LFN=FN, IDX=2, KEY="key", sys=sys,
